@@ -53,6 +53,9 @@ var (
 	// ErrUnknownFormat is returned when an attestation file cannot be decoded from any of the
 	// supported forms.
 	ErrUnknownFormat = errors.New("unknown attestation format")
+	// ErrNoObjectName is returned when no full-length measurement is available to name the
+	// endorsement object to fetch.
+	ErrNoObjectName = errors.New("no measurement to derive the endorsement object name from")
 	// ErrEventLogPathEmpty is returned when the event log path in Options is empty.
 	ErrEventLogPathEmpty = errors.New("event log path is empty")
 )
@@ -155,15 +158,28 @@ func (opts *Options) fromEventLog() ([]byte, error) {
 }
 
 func fromSevSnpAttestationProto(at *spb.Attestation) ([]byte, string, error) {
-	if out, err := extractsev.FromAttestation(at); err == nil {
-		return out, "", nil
-	}
+	// The object name is only defined for a full-length measurement.
+	var objectName string
 	meas := at.GetReport().GetMeasurement()
-	return nil, extractsev.GCETcbObjectName(sev.GCEUefiFamilyID, meas), nil
+	if len(meas) == abi.MeasurementSize {
+		objectName = extractsev.GCETcbObjectName(sev.GCEUefiFamilyID, meas)
+	}
+	if out, err := extractsev.FromAttestation(at); err == nil {
+		return out, objectName, nil
+	}
+	if objectName == "" {
+		return nil, "", fmt.Errorf("SEV-SNP report measurement size is %d, want %d", len(meas),
+			abi.MeasurementSize)
+	}
+	return nil, objectName, nil
 }
 
-func fromTdxAttestationProto(at *tpb.QuoteV4) string {
-	return extracttdx.GCETcbObjectName(at.GetTdQuoteBody().GetMrTd())
+func fromTdxAttestationProto(at *tpb.QuoteV4) (string, error) {
+	mrtd := at.GetTdQuoteBody().GetMrTd()
+	if len(mrtd) != tabi.MrTdSize {
+		return "", fmt.Errorf("TDX quote MRTD size is %d, want %d", len(mrtd), tabi.MrTdSize)
+	}
+	return extracttdx.GCETcbObjectName(mrtd), nil
 }
 
 // Attestation will try to deserialize a given attestation in any of the supported formats and
@@ -242,7 +258,8 @@ func (opts *Options) fromQuote(quote []byte) (endorsement []byte, objectName str
 	case *tpmpb.Attestation_SevSnpAttestation:
 		return fromSevSnpAttestationProto(at.SevSnpAttestation)
 	case *tpmpb.Attestation_TdxAttestation:
-		return nil, fromTdxAttestationProto(at.TdxAttestation), nil
+		objectName, err := fromTdxAttestationProto(at.TdxAttestation)
+		return nil, objectName, err
 	}
 	return nil, "", ErrUnknownFormat
 }
@@ -286,9 +303,11 @@ func Endorsement(opts *Options) (out []byte, err error) {
 		}
 	}
 
-	// Then try the internet.
+	// Then try the internet. Without a measurement there is no object to ask for.
 	if opts.Getter == nil {
 		internetErr = ErrGetterNil
+	} else if objectName == "" {
+		internetErr = ErrNoObjectName
 	} else {
 		endorsement, internetErr = opts.Getter.Get(verify.GCETcbURL(objectName))
 		if internetErr == nil {
